@@ -58,7 +58,11 @@ struct VecWorld : World {
     Model *new_model() override { return new VecModel(this); }
     Bytes value(const Op &op) const { return gen_value(op.b, es, (op.d >> 3) & 7); }
     // index relative to the current length (sequential modes); a fixed small range when several threads run, where the length is not the caller's to read
-    static int index_of(int a, size_t n, bool mt) { if (mt) return (a % 7) - 3; return (int)(a % (int)(2 * n + 5)) - (int)(n + 2); }
+    static int index_of(int a, size_t n, bool mt) {
+        if (mt) return (a % 7) - 3;
+        if (a >= 60 && a < 64) { static const int far[4] = {2147483647, -2147483647 - 1, -2147483647, 2147483646}; return far[a - 60]; }   // the ends of int: always out of range
+        return (int)(a % (int)(2 * n + 5)) - (int)(n + 2);
+    }
     static size_t newmax_of(const Op &op, size_t n) {
         switch (op.d % 5) { case 0: return 0; case 1: return n ? (size_t)(op.a % (int)n) : 0; case 2: return n; case 3: return n + 1 + (size_t)(op.a % 5); default: return (size_t)(op.a % 12); }
     }
